@@ -843,6 +843,9 @@ def run(prop, units, scratch, tier, repo):
     def one(job):
         u, h = job
         to = int(h.get('timeout_s') or DEFAULT_TIMEOUT[tier if h['tier'] == 'thorough' else 'quick'])
+        # a loaded machine must not turn a passing harness into a time-out (= undecided, exit 2 on an unchanged tree):
+        # the per-harness figure is the expected cost; the kill timer is a multiple of it
+        to = int(to * float(os.environ.get('VERIF_TIMEOUT_FACTOR', '4')))
         cmd = _kani_cmd(u, h['name'], target, h['flags'], h['cbmc_args'])
         rc, out, secs = _run(cmd, os.path.join(copy, u['crate_dir']), env, to, MEM_KB)
         c = classify_run(rc, out, secs, to, h)
